@@ -63,6 +63,7 @@ type schedule struct {
 	restart   int  // restart every `restart` batches (0 = never)
 	overlap   bool // re-deliver the last momentum(s) of the previous batch at the start of the next
 	rival     bool // before a batch, gossip a competing block (same account, same height, other content) for accounts whose next block the batch confirms
+	arrival   bool // every user block is gossiped when the follower's frontier is the frontier the producer had when the block reached it
 }
 
 func init() {
@@ -78,7 +79,13 @@ func init() {
 }
 
 // produceTraffic drives node A through `steps` generated actions and returns nothing: the history is the chain itself.
-func produceTraffic(c *Ctx, n *Node, steps int) {
+func produceTraffic(c *Ctx, n *Node, steps int) { produceTrafficRC(c, n, steps, nil) }
+
+// produceTrafficRC: with rc != nil the traffic also deletes and re-creates ledger keys (cancelled fusions, undelegations,
+// new fusions / delegations for the same key), runs the directed delete / re-create / delayed-confirmation scenario of
+// s_sync_recreate.go once, and notes at which producer frontier every block arrived. With rc == nil it is the generator the
+// other streams have always used (same draws).
+func produceTrafficRC(c *Ctx, n *Node, steps int, rc *syncRecreate) {
 	users := []types.Address{g.User1.Address, g.User2.Address, g.User3.Address, g.User4.Address, g.User5.Address, g.Pillar1.Address, g.Pillar2.Address}
 	everyone := append([]types.Address{g.User6.Address, g.User7.Address}, users...)
 	type pend struct {
@@ -109,19 +116,38 @@ func produceTraffic(c *Ctx, n *Node, steps int) {
 				}
 			}
 		}
+		at := n.Height()
 		b, err := n.Submit(tpl)
 		if err != nil {
 			c.Hit("traffic-rejected")
 			return nil
 		}
 		c.Hit("traffic-accepted")
+		if rc != nil {
+			rc.noteAccepted(b, at)
+		}
 		if b.IsSendBlock() && keyOf(b.ToAddress) != nil {
 			pending = append(pending, pend{b.Hash, b.ToAddress})
 		}
 		return b
 	}
-	for s := 0; s < steps; s++ {
+	momentum := func() error {
+		if rc != nil {
+			return rc.momentum()
+		}
+		_, err := n.Momentum()
+		return err
+	}
+	s, sub := 0, 0
+	// one generated action; false: the producer cannot go on
+	step := func(allowMomentum bool) bool {
 		x := c.R.Intn(100)
+		if !allowMomentum {
+			sub++ // a step inside the directed scenario: s stands still
+			if x >= 72 {
+				x = c.R.Intn(72)
+			}
+		}
 		switch {
 		case x < 30:
 			from := users[c.R.Intn(len(users))]
@@ -145,20 +171,20 @@ func produceTraffic(c *Ctx, n *Node, steps int) {
 			submit(&nom.AccountBlock{BlockType: nom.BlockTypeUserSend, Address: from, ToAddress: everyone[c.R.Intn(len(everyone))], TokenStandard: tok, Amount: am, Data: data})
 		case x < 50:
 			if len(pending) == 0 {
-				continue
+				return true
 			}
 			i := c.R.Intn(len(pending))
 			p := pending[i]
 			if b, _ := n.Chain().GetFrontierMomentumStore().GetAccountBlockByHash(p.hash); b == nil {
-				continue // not confirmed yet
+				return true // not confirmed yet
 			}
-			if keyOf(p.to) == nil {
-				continue
+			if keyOf(p.to) == nil || (rc != nil && rc.reserved[p.to]) {
+				return true
 			}
 			// users 6,7 have no fused plasma: skip (would need PoW)
 			if p.to == g.User6.Address || p.to == g.User7.Address {
 				pending = append(pending[:i], pending[i+1:]...)
-				continue
+				return true
 			}
 			if submit(&nom.AccountBlock{BlockType: nom.BlockTypeUserReceive, Address: p.to, FromBlockHash: p.hash}) != nil {
 				pending = append(pending[:i], pending[i+1:]...)
@@ -169,11 +195,11 @@ func produceTraffic(c *Ctx, n *Node, steps int) {
 			case 0:
 				total := big.NewInt(int64(c.R.Intn(100000)))
 				max := new(big.Int).Add(total, big.NewInt(int64(c.R.Intn(100000))))
-				data, _ := definition.ABIToken.PackMethod(definition.IssueMethodName, fmt.Sprintf("tok%d", s), fmt.Sprintf("TK%d", s), "", total, max, uint8(c.R.Intn(10)), true, true, false)
+				data, _ := definition.ABIToken.PackMethod(definition.IssueMethodName, fmt.Sprintf("tok%d", s+1000*sub), fmt.Sprintf("TK%d", s+1000*sub), "", total, max, uint8(c.R.Intn(10)), true, true, false)
 				submit(&nom.AccountBlock{BlockType: nom.BlockTypeUserSend, Address: from, ToAddress: types.TokenContract, TokenStandard: types.ZnnTokenStandard, Amount: constants.TokenIssueAmount, Data: data})
 			case 1:
 				if len(issued) == 0 {
-					continue
+					return true
 				}
 				data, _ := definition.ABIToken.PackMethod(definition.MintMethodName, issued[c.R.Intn(len(issued))], big.NewInt(int64(1+c.R.Intn(1000))), everyone[c.R.Intn(len(everyone))])
 				submit(&nom.AccountBlock{BlockType: nom.BlockTypeUserSend, Address: from, ToAddress: types.TokenContract, Data: data})
@@ -185,11 +211,23 @@ func produceTraffic(c *Ctx, n *Node, steps int) {
 				submit(&nom.AccountBlock{BlockType: nom.BlockTypeUserSend, Address: from, ToAddress: types.TokenContract, Data: data})
 			}
 		case x < 72: // plasma fuse / stake / delegate: contract storage traffic
+			if rc != nil && c.R.Intn(3) == 0 {
+				rc.randomStep(users, everyone) // cancel fuse / fuse again / undelegate
+				return true
+			}
 			from := users[c.R.Intn(len(users))]
+			if rc != nil && rc.reserved[from] {
+				return true
+			}
 			switch c.R.Intn(3) {
 			case 0:
+				qsr := int64(10 + c.R.Intn(50)) // (drawn before the beneficiary, as always)
+				ben := everyone[c.R.Intn(len(everyone))]
+				if rc != nil && rc.reserved[ben] {
+					return true
+				}
 				submit(&nom.AccountBlock{BlockType: nom.BlockTypeUserSend, Address: from, ToAddress: types.PlasmaContract, TokenStandard: types.QsrTokenStandard,
-					Amount: big.NewInt(int64(10+c.R.Intn(50)) * g.Zexp), Data: definition.ABIPlasma.PackMethodPanic(definition.FuseMethodName, everyone[c.R.Intn(len(everyone))])})
+					Amount: big.NewInt(qsr * g.Zexp), Data: definition.ABIPlasma.PackMethodPanic(definition.FuseMethodName, ben)})
 			case 1:
 				submit(&nom.AccountBlock{BlockType: nom.BlockTypeUserSend, Address: from, ToAddress: types.StakeContract, TokenStandard: types.ZnnTokenStandard,
 					Amount: big.NewInt(int64(1+c.R.Intn(20)) * g.Zexp), Data: definition.ABIStake.PackMethodPanic(definition.StakeMethodName, int64(constants.StakeTimeMinSec))})
@@ -198,8 +236,8 @@ func produceTraffic(c *Ctx, n *Node, steps int) {
 				submit(&nom.AccountBlock{BlockType: nom.BlockTypeUserSend, Address: from, ToAddress: types.PillarContract, Data: definition.ABIPillars.PackMethodPanic(definition.DelegateMethodName, name)})
 			}
 		default:
-			if _, err := n.Momentum(); err != nil {
-				return
+			if err := momentum(); err != nil {
+				return false
 			}
 			// pick up newly issued tokens deterministically: look at User balances
 			for _, u := range users {
@@ -227,6 +265,18 @@ func produceTraffic(c *Ctx, n *Node, steps int) {
 				}
 			}
 		}
+		return true
+	}
+	if rc != nil {
+		rc.submit, rc.step = submit, step
+	}
+	for ; s < steps; s++ {
+		if rc != nil && rc.at[s] {
+			rc.directed()
+		}
+		if !step(true) {
+			return
+		}
 	}
 	for i := 0; i < 3; i++ {
 		n.Momentum()
@@ -245,13 +295,19 @@ func syncHistory(c *Ctx, id int) {
 	origGate := verifier.ReceiverMismatchEnforcementHeight
 	defer func() { verifier.ReceiverMismatchEnforcementHeight = origGate }()
 	verifier.ReceiverMismatchEnforcementHeight = 0
+	// the fusion time lock is a package variable of the real code (10 hours of momentums): a few momentums for this history,
+	// for the producer and for the followers alike, so that fusions can be cancelled and made again within it
+	origFuseExpiration := constants.FuseExpiration
+	defer func() { constants.FuseExpiration = origFuseExpiration }()
+	constants.FuseExpiration = uint64(1 + c.R.Intn(4))
 	a := NewNode()
 	defer a.Stop()
 	steps := 70 + c.R.Intn(50)
 	if c.Tier == "thorough" {
 		steps = 200 + c.R.Intn(150)
 	}
-	produceTraffic(c, a, steps)
+	rc := newSyncRecreate(c, a, steps)
+	produceTrafficRC(c, a, steps, rc)
 	H := a.Height()
 	// the producer's chain as a peer serves it
 	aStore := a.Chain().GetFrontierMomentumStore()
@@ -283,7 +339,17 @@ func syncHistory(c *Ctx, id int) {
 		{name: "gossip-lead-k+restart", maxBatch: 1 + c.R.Intn(8), gossip: 1 + c.R.Intn(3), restart: 2 + c.R.Intn(4)},
 		{name: "big-batch+restart+overlap", maxBatch: 20 + c.R.Intn(100), gossip: -1, restart: 1, overlap: true},
 		{name: "gossiped-rival-blocks", maxBatch: 1 + c.R.Intn(3), gossip: -1, rival: true},
+		{name: "gossip-at-arrival", maxBatch: 1, gossip: -1, arrival: true},
 	}
+	// heights whose ledger is recorded while the one-by-one follower has them as frontier: every directed V, a sample of the others
+	recordAt := map[uint64]bool{}
+	for _, p := range rc.probes {
+		recordAt[p.v.Height] = true
+	}
+	for i := 0; i < 8 && H > 2; i++ {
+		recordAt[2+uint64(c.R.Intn(int(H-2)))] = true
+	}
+	var views []viewRecord
 	type result struct {
 		name       string
 		digest     string
@@ -310,10 +376,30 @@ func syncHistory(c *Ctx, id int) {
 		nsAttach(ns, si, f)
 		pos := 0
 		batches := 0
+		offered := map[types.Hash]bool{}
 		for pos < len(chainA) {
 			size := 1 + c.R.Intn(sc.maxBatch)
 			if pos+size > len(chainA) {
 				size = len(chainA) - pos
+			}
+			if sc.arrival {
+				// the blocks that reached the producer while its frontier was this follower's frontier (in the order of the chain)
+				for k := pos; k < len(chainA) && k < pos+12; k++ {
+					for _, b := range chainA[k].AccountBlocks {
+						at, ok := rc.arrival[b.Hash]
+						if !ok || offered[b.Hash] || at > f.Height() || types.IsEmbeddedAddress(b.Address) {
+							continue
+						}
+						offered[b.Hash] = true
+						c.Hit("arrival-gossip-offered")
+						if f.Gossip([]*nom.AccountBlock{b}) == nil {
+							c.Hit("arrival-gossip-accepted")
+							if k > pos {
+								c.Hit("arrival-gossip-ahead-of-confirmation")
+							}
+						}
+					}
+				}
 			}
 			if sc.gossip >= 0 {
 				// gossip the user blocks of the coming momentums whose acknowledged momentum the follower already has
@@ -381,12 +467,25 @@ func syncHistory(c *Ctx, id int) {
 			idx, err := f.InsertChain(chainA[from : pos+size])
 			if err != nil {
 				bad := chainA[from:pos+size][maxInt(idx, 0)].Momentum
-				c.Fail("sync run=%d schedule=%s: a momentum produced and accepted by the producer (height %d, %d account blocks) is refused by a follower that has its predecessor: index=%d err=%v", id, sc.name, bad.Height, len(bad.Content), idx, err)
+				c.Fail("sync run=%d schedule=%s: a momentum produced and accepted by the producer (height %d, %d account blocks) is refused by a follower that has its predecessor: index=%d err=%v; follower frontier %d; blocks of that momentum: %s; keys deleted and re-created in this history: %s", id, sc.name, bad.Height, len(bad.Content), idx, err,
+					f.Height(), describeBlocks(chainA[from:pos+size][maxInt(idx, 0)].AccountBlocks, rc), describeProbes(rc.probes))
 				return
 			}
 			pos += size
 			batches++
 			c.Hit("batch-delivered")
+			if si == 0 && recordAt[f.Height()] {
+				views = append(views, viewRecord{f.ch.GetFrontierMomentumStore().Identifier(), digestDB(f.mgr.Frontier())})
+				// the directed keys as the follower reads them now must be what the producer read when this was its frontier
+				for _, p := range rc.probes {
+					if p.v.Height == f.Height() {
+						if got := rcRead(f.ch, p); got != p.value {
+							c.Fail("sync run=%d schedule=%s: %s entry of %s at frontier %d: follower reads %s, the producer read %s", id, sc.name, p.family, addrName(p.x), p.v.Height, got, p.value)
+							return
+						}
+					}
+				}
+			}
 			if sc.restart > 0 && batches%sc.restart == 0 {
 				if err := f.Restart(); err != nil {
 					c.Fail("sync run=%d schedule=%s: restart failed: %v", id, sc.name, err)
@@ -402,6 +501,15 @@ func syncHistory(c *Ctx, id int) {
 		results[si].digest = f.StateDigest()
 		nsLedger(ns, si, results[si].digest, results[0].digest)
 		results[si].n, results[si].fnv = fnv64(f.mgr.Frontier())
+	}
+	// the ledger as of an old momentum does not change while the frontier advances (every follower; the directed keys also on the producer)
+	if !checkProbes(c, id, "producer", a.Chain(), rc.probes) {
+		return
+	}
+	for _, r := range results {
+		if !checkProbes(c, id, "schedule="+r.name, r.f.ch, rc.probes) || !checkViews(c, id, r.name, r.f, views) {
+			return
+		}
 	}
 	// all followers byte-identical
 	for _, r := range results[1:] {
